@@ -15,7 +15,9 @@ CONSTANTS C,          \* channelCapacity
           Producers, Consumers,
           NOffer,     \* offers per producer
           NTake,      \* take/poll calls per consumer
-          WithClose   \* BOOLEAN: a closer thread exists
+          WithClose,  \* BOOLEAN: a closer thread exists
+          GuardedClose \* TRUE: notifyWorkers runs under the read lock and re-checks closed, the loader re-checks closed under
+                       \*       the lock (the fixed code); FALSE: the pinned code (flag checked once, outside the lock)
 
 VARIABLES ch, pool, wake, closed, wakeClosed, chClosed, lock,
           lpc, lval,           \* loader
@@ -87,9 +89,13 @@ ConsStart(c, k) ==
   /\ UNCHANGED <<ch, pool, wake, closed, wakeClosed, chClosed, lock, lpc, lval,
                  ppc, pidx, pres, xpc, panicked>>
 
+\* GuardedClose: RLock; re-check; offer; RUnlock is one step: no writer can interleave and readers' notifies commute
 ConsNotify(c) ==
   /\ cpc[c] = "checked"
-  /\ IF wakeClosed
+  /\ GuardedClose => lock = "free"
+  /\ IF GuardedClose /\ closed
+       THEN /\ cpc' = [cpc EXCEPT ![c] = "notified"] /\ UNCHANGED <<wake, panicked>>
+     ELSE IF wakeClosed
        THEN /\ panicked' = panicked \cup {c}
             /\ cpc' = [cpc EXCEPT ![c] = "dead"]
             /\ UNCHANGED wake
@@ -129,7 +135,9 @@ LoaderCheck ==
 
 LoaderLock ==
   /\ lpc = "checked" /\ lock = "free"
-  /\ lock' = "loader" /\ lpc' = "locked"
+  /\ IF GuardedClose /\ closed
+       THEN lpc' = "exited" /\ UNCHANGED lock                  \* re-check under the lock: unlock and leave
+       ELSE lock' = "loader" /\ lpc' = "locked"
   /\ UNCHANGED <<ch, pool, wake, closed, wakeClosed, chClosed, lval,
                  ppc, pidx, pres, cpc, cidx, cres, ckind, xpc, panicked>>
 
@@ -197,6 +205,8 @@ Delivered == UNION {{DeliveredSeq(c)[i] : i \in 1..Len(DeliveredSeq(c))} : c \in
 InFlight == {ch[i] : i \in 1..Len(ch)} \cup {pool[i] : i \in 1..Len(pool)} \cup {lval[i] : i \in 1..Len(lval)}
 
 Inv_NoPanic == panicked = {}
+Inv_NoLoaderPanic == "loader" \notin panicked          \* the library goroutine: a panic there kills the process
+Inv_NoUserPanic == panicked \subseteq {"loader"}
 Inv_Bound == Len(ch) <= C /\ Len(pool) + Len(lval) <= B /\ Len(ch) + Len(pool) + Len(lval) <= C + B
 Inv_Conservation == Accepted = Delivered \cup InFlight
 Inv_NoDup ==
